@@ -400,6 +400,9 @@ func CheckC16(s Script, tr Trace) error {
 	if tr.NotClosedAtStop {
 		return fmt.Errorf("Output() was not closed when Stop() returned (a receive would have blocked)")
 	}
+	if s.Stop.Mode == "cancel" && tr.ClosedBlocking && tr.StopIssuedAt >= 0 && tr.ClosedAt > max(tr.StopIssuedAt, tr.RecvEnterAt) {
+		return fmt.Errorf("the context was cancelled at %dns, the consumer was receiving from %dns on, but Output() closed only at %dns (when Stop() was called)", tr.StopIssuedAt, tr.RecvEnterAt, tr.ClosedAt)
+	}
 	if tr.StopReturnedAt >= 0 && tr.ClosedBlocking && tr.ClosedAt > tr.StopReturnedAt {
 		return fmt.Errorf("Output() closed at %dns, after Stop() had returned at %dns", tr.ClosedAt, tr.StopReturnedAt)
 	}
